@@ -19,13 +19,18 @@ fn h<T: Hash>(t: &T) -> u64 {
 }
 
 fn matrix<T: Eq + Ord + Hash + Clone + ToString>(case: &Value, objs: Vec<Option<T>>, abs: Vec<String>) -> Vec<Value> {
+    let hashes: Vec<u64> = objs.iter().map(|o| o.as_ref().map(h).unwrap_or(0)).collect();
+    matrix_h(case, objs, abs, hashes)
+}
+
+/// `hashes`: per item; for types without a Hash impl all zero (the clause eq => equal hash is then vacuous)
+fn matrix_h<T: Eq + Ord + Clone + ToString>(case: &Value, objs: Vec<Option<T>>, abs: Vec<String>, hashes: Vec<u64>) -> Vec<Value> {
     let items = case["items"].as_array().unwrap();
     let n = items.len();
     let base: Vec<i64> = items.iter().map(|x| x["base"].as_i64().unwrap()).collect();
     let style: Vec<String> = items.iter().map(|x| x["style"].as_str().unwrap_or("x").to_string()).collect();
     let ok: Vec<bool> = objs.iter().map(|o| o.is_some()).collect();
     let strs: Vec<String> = objs.iter().map(|o| o.as_ref().map(|x| x.to_string()).unwrap_or_default()).collect();
-    let hashes: Vec<u64> = objs.iter().map(|o| o.as_ref().map(h).unwrap_or(0)).collect();
     let mut out = vec![];
     let mut scores = vec![];
     let mut score_rows = vec![];
@@ -105,7 +110,126 @@ fn ms_items<Ctx: ScriptContext>(u: &Universe, case: &Value) -> Vec<Value> {
     matrix(case, objs, abs)
 }
 
+fn parse_guard<T, F: FnOnce() -> Result<T, String> + std::panic::UnwindSafe>(f: F) -> Option<T> {
+    match catch_unwind(f) {
+        Ok(Ok(x)) => Some(x),
+        _ => None,
+    }
+}
+
+/// semantic policy text: leaves and thresholds only
+fn sem_str(u: &Universe, p: &Value) -> String {
+    let k = p["p"].as_str().unwrap();
+    let n = p["n"].as_i64().unwrap_or(0);
+    match k {
+        "key" => format!("pk({})", u.key_str(n as usize, "segwitv0")),
+        "after" | "older" => format!("{}({})", k, n),
+        "thresh" => {
+            // the semantic text syntax spells 1-of-n "or" and n-of-n "and"
+            let xs = p["xs"].as_array().unwrap();
+            let kids = xs.iter().map(|x| sem_str(u, x)).collect::<Vec<_>>().join(",");
+            if n == 1 {
+                format!("or({})", kids)
+            } else if n as usize == xs.len() {
+                format!("and({})", kids)
+            } else {
+                format!("thresh({},{})", n, kids)
+            }
+        }
+        _ => format!("{}({})", k, crate::uni::hash_str(k, n as usize)),
+    }
+}
+
+/// taproot tree text from leaves + pre-order depth list
+fn tree_str(leaves: &[String], depths: &[u64], pos: &mut usize, depth: u64) -> String {
+    if depths[*pos] == depth {
+        *pos += 1;
+        leaves[*pos - 1].clone()
+    } else {
+        let a = tree_str(leaves, depths, pos, depth + 1);
+        let b = tree_str(leaves, depths, pos, depth + 1);
+        format!("{{{},{}}}", a, b)
+    }
+}
+
+fn desc_str(u: &Universe, d: &Value) -> String {
+    let wrap = d["wrap"].as_str().unwrap();
+    let ik = d["ik"].as_u64().unwrap_or(0) as usize;
+    let ctx = match wrap {
+        "tr" | "tr_key" => "tap",
+        "sh" => "legacy",
+        "bare" | "bare_pk" => "bare",
+        _ => "segwitv0",
+    };
+    let asts: Vec<String> = d["asts"].as_array().unwrap().iter().map(|a| ast_to_string(u, a, ctx)).collect();
+    match wrap {
+        "pkh" => format!("pkh({})", u.key_str(ik, "legacy")),
+        "wpkh" => format!("wpkh({})", u.key_str(ik, "segwitv0")),
+        "shwpkh" => format!("sh(wpkh({}))", u.key_str(ik, "segwitv0")),
+        "bare_pk" => format!("pk({})", u.key_str(ik, "bare")),
+        "tr_key" => format!("tr({})", u.key_str(ik, "tap")),
+        "bare" => asts[0].clone(),
+        "sh" => format!("sh({})", asts[0]),
+        "wsh" => format!("wsh({})", asts[0]),
+        "shwsh" => format!("sh(wsh({}))", asts[0]),
+        "tr" => {
+            let depths: Vec<u64> = d["dl"].as_array().unwrap().iter().map(|x| x.as_u64().unwrap()).collect();
+            let mut pos = 0;
+            format!("tr({},{})", u.key_str(ik, "tap"), tree_str(&asts, &depths, &mut pos, 0))
+        }
+        _ => panic!("bad wrap"),
+    }
+}
+
+fn other_items(u: &Universe, case: &Value) -> Vec<Value> {
+    use miniscript::policy::{Concrete, Semantic};
+    use miniscript::Descriptor;
+    let items = case["items"].as_array().unwrap();
+    match case["kind"].as_str().unwrap() {
+        "conc" => {
+            let strs: Vec<String> = items.iter().map(|it| crate::compobs::pol_str(u, &it["pol"], "segwitv0")).collect();
+            let objs = strs.iter().map(|s| { let s = s.clone(); parse_guard(move || Concrete::<DefiniteDescriptorKey>::from_str(&s).map_err(|e| e.to_string())) }).collect();
+            matrix(case, objs, strs.iter().map(|s| short(s)).collect())
+        }
+        "sem" => {
+            let strs: Vec<String> = items.iter().map(|it| sem_str(u, &it["pol"])).collect();
+            let objs: Vec<Option<Semantic<DefiniteDescriptorKey>>> = strs.iter().map(|s| { let s = s.clone(); parse_guard(move || Semantic::<DefiniteDescriptorKey>::from_str(&s).map_err(|e| e.to_string())) }).collect();
+            let zeros = vec![0u64; objs.len()];
+            matrix_h(case, objs, strs.iter().map(|s| short(s)).collect(), zeros)
+        }
+        _ => {
+            let strs: Vec<String> = items.iter().map(|it| desc_str(u, &it["d"])).collect();
+            let objs = strs.iter().map(|s| { let s = s.clone(); parse_guard(move || Descriptor::<DefiniteDescriptorKey>::from_str(&s).map_err(|e| e.to_string())) }).collect();
+            matrix(case, objs, strs.iter().map(|s| short(s)).collect())
+        }
+    }
+}
+
+/// readable form: 66/64-hex keys shortened
+fn short(s: &str) -> String {
+    let mut out = String::new();
+    let mut run = String::new();
+    for c in s.chars().chain(std::iter::once(' ')) {
+        if c.is_ascii_hexdigit() {
+            run.push(c);
+        } else {
+            if run.len() >= 40 {
+                out.push_str(&run[..6]);
+                out.push_str("..");
+            } else {
+                out.push_str(&run);
+            }
+            run.clear();
+            out.push(c);
+        }
+    }
+    out.trim_end().to_string()
+}
+
 pub fn run_case(u: &Universe, case: &Value) -> Vec<Value> {
+    if case.get("kind").and_then(|k| k.as_str()).map(|k| k != "ms").unwrap_or(false) {
+        return other_items(u, case);
+    }
     match case["ctx"].as_str().unwrap() {
         "bare" => ms_items::<miniscript::BareCtx>(u, case),
         "legacy" => ms_items::<miniscript::Legacy>(u, case),
